@@ -269,7 +269,7 @@ func Judge(module string, events [][]byte, extra map[string][]byte) (JudgeResult
 	}
 	results := make([]JudgeResult, len(chunks))
 	errs := make([]error, len(chunks))
-	sem := make(chan struct{}, 8)
+	sem := make(chan struct{}, 6)
 	done := make(chan int)
 	for ci := range chunks {
 		go func(ci int) {
@@ -331,7 +331,7 @@ func judgeOne(module string, events [][]byte, extra map[string][]byte, offset in
 	for k, v := range extra {
 		files[k] = v
 	}
-	r, err := RunTLC(TLCOpts{Module: module, Workers: 1, Files: files, Timeout: 60 * time.Minute, Heap: "6g"})
+	r, err := RunTLC(TLCOpts{Module: module, Workers: 1, Files: files, Timeout: 60 * time.Minute, Heap: "4g"})
 	jr.TLC = r
 	if err != nil {
 		return jr, err
